@@ -356,8 +356,8 @@ Proof.
     + right; right; right; right. exists tq, thq. split_all; try assumption.
       rewrite updf_other by assumption. exact Q1.
   - subst pp. destruct Hsame as [Hz|Hz]; [left; congruence|right; left; congruence].
-  - Show.
-Admitted.
+  - subst pp. destruct Hsame as [Hz|Hz]; [left; congruence|right; left; congruence].
+Qed.
 
 (* ---- reports: every ad up to the goal is reported or owed, once ---- *)
 
